@@ -421,10 +421,29 @@ func classifyLoop(p *Program, t *Termer, fn *ssa.Function, h *ssa.BasicBlock) (s
 				if !ok {
 					continue
 				}
-				if _, isCmp := negOp[bo.Op]; !isCmp || bo.Op == token.NEQ || bo.Op == token.EQL {
+				if _, isCmp := negOp[bo.Op]; !isCmp {
 					continue
 				}
-				usesPhi := dependsOn(bo.X, ph, 3) || dependsOn(bo.Y, ph, 3)
+				if bo.Op == token.NEQ || bo.Op == token.EQL {
+					// `len(s[i:]) == 0` is the threshold test `i ≥ len(s)` (a length cannot be skipped over: it is
+					// never negative, and slicing beyond the end is PANIC's business, not a way past the test)
+					isTailLen := func(v ssa.Value) bool {
+						call, ok := v.(*ssa.Call)
+						if !ok {
+							return false
+						}
+						if bi, ok := call.Call.Value.(*ssa.Builtin); !ok || bi.Name() != "len" {
+							return false
+						}
+						sl, ok := call.Call.Args[0].(*ssa.Slice)
+						return ok && sl.High == nil && sl.Low != nil && dependsOn(sl.Low, ph, 3) && invariantIn(sl.X, body)
+					}
+					z, isZ := constInt(bo.Y)
+					if !(isZ && z == 0 && isTailLen(bo.X)) {
+						continue
+					}
+				}
+				usesPhi := dependsOn(bo.X, ph, 5) || dependsOn(bo.Y, ph, 5)
 				exits := !body[b.Succs[0]] || !body[b.Succs[1]]
 				dominatesLatches := true
 				for _, pr := range h.Preds {
@@ -554,6 +573,14 @@ func dependsOn(v ssa.Value, target ssa.Value, depth int) bool {
 		return dependsOn(x.X, target, depth-1) || dependsOn(x.Y, target, depth-1)
 	case *ssa.Convert:
 		return dependsOn(x.X, target, depth-1)
+	case *ssa.Call:
+		if bi, ok := x.Call.Value.(*ssa.Builtin); ok && bi.Name() == "len" {
+			return dependsOn(x.Call.Args[0], target, depth-1)
+		}
+	case *ssa.Slice:
+		if x.Low != nil && x.High == nil {
+			return dependsOn(x.Low, target, depth-1)
+		}
 	}
 	return false
 }
